@@ -64,3 +64,16 @@ def slot_feed_profile(pid, downstream="schedule", **kw):
     w.update(args.pop("more_weights", {}))
     return S.Profile(list(w), **args)
 
+
+def combo_profile(pid, **kw):
+    """Pre-emption of both kinds on the same nodes: pre-emptive priorities (all options incl. re-route) at nodes with pre-emptive schedules, class
+    changes while waiting that raise the priority, reneging, batches; tie-rich grid times, heavy load, three classes."""
+    w = {"priorities": 1.0, "prio_preempt": 1.0, "prio_reroute": 0.5, "schedule": 1.0, "sched_preempt": 1.0, "sched_reroute": 0.25, "cc_waiting": 0.6,
+         "cc_after": 0.2, "reneging": 0.35, "batching": 0.4, "capacity": 0.25, "self_loops": 0.4, "discipline": 0.2, "routing_objects": 0.2,
+         "server_priority": 0.1, "zero_service": 0.2}
+    args = dict(weights=w, required=("priorities", "prio_preempt", "schedule", "sched_preempt"), numeric="grid", max_nodes=2, max_classes=3, plans=("max_time",),
+                horizon=(8.0, 20.0), budget=600, load="heavy", max_c=2, stay=0.5, resumptions=(1, 2), excluded=EXCL.get(pid, ()))
+    args.update(kw)
+    w.update(args.pop("more_weights", {}))
+    return S.Profile(list(w), **args)
+
